@@ -152,6 +152,8 @@ type Conn struct {
 	readDeadline, writeDeadline time.Time
 
 	Reads, Writes int
+	// reads that returned an injected error / found the connection closed
+	ErrReads, ClosedReads int
 	siteRead      int
 	siteReadWait  int
 	siteWrite     int
@@ -195,6 +197,7 @@ func (c *Conn) ReadFrom(b []byte) (int, net.Addr, error) {
 	for {
 		if c.closed {
 			c.s.Ev("rx.err", -1, 0, c.Name+": closed", nil)
+			c.ClosedReads++
 			return 0, nil, errClosed("read")
 		}
 		if len(c.inbox) > 0 {
@@ -203,6 +206,7 @@ func (c *Conn) ReadFrom(b []byte) (int, net.Addr, error) {
 			c.Reads++
 			if d.err != nil {
 				c.s.Ev("rx.err", -1, 0, c.Name+": "+d.err.Error(), nil)
+				c.ErrReads++
 				return 0, nil, d.err
 			}
 			n := copy(b, d.b)
